@@ -1131,7 +1131,7 @@ def gen_spec(rng, want=None, chain_ids=None):
         prefix = rng.choice(CLASH_PREFIX)
     params = {'prefix': prefix, 'backbone': 'BB', 'vsname': rng.choice(['CA', 'CA', 'VS', 'GO']),
               'low': low, 'up': up, 'sep': rng.choice([0, 0, 1, 1, 2, 2, 3, 4]) if rng.random() < 0.97 else -1,
-              'eps': rng.choice([9.414, 12.0, 2.1, 0.5])}
+              'eps': rng.choice([9.414, 12.0, 2.1, 0.5, 0.5, 0, 0.0, -1.5])}  # 0 and 0.0 are legal (falsy) depths
     return {'molecules': molecules, 'contacts': [list(c) for c in contacts], 'params': params}
 
 
